@@ -19,6 +19,18 @@ def run(chk, replay=None):
     for cfg in cfgs:
         r = core.model_check("classgroup/ClassGroupMC.tla", cfg, workers=4, timeout=1700)
         chk.add_mc(r)
+    # (M) the relation store (spanning tree of large primes) and (G) its histories replayed into the real CRelationSet
+    for cfg in ["MC_CRelStore.cfg"] + (["MC_CRelStoreBig.cfg"] if thorough else []):
+        chk.add_mc(core.model_check("classgroup/CRelStore.tla", cfg, workers=4, timeout=1700))
+    hists = os.path.join(w, "hists.ndjson")
+    nh, r = core.gen_shapes("classgroup/CRelStore.tla", "CRelStoreReplayThorough.cfg" if thorough else "CRelStoreReplay.cfg",
+                            hists, head="REPLAY")
+    chk.add_mc(r)
+    strace = os.path.join(w, "store.ndjson")
+    core.run_driver(["c18", "--mode", "store", "--hists", hists], strace)
+    sres = core.validate_trace("classgroup/CRelStoreTrace.tla", "CRelStoreTrace.cfg", strace, timeout=1200)
+    chk.add_tv(sres)
+    chk.cov["store_histories_replayed"] = nh
     # (I) input space: every fundamental |D| < 3000 and (bit size, residue class) shapes
     shapes = os.path.join(w, "shapes.ndjson")
     nshapes, r = core.gen_shapes("classgroup/ClassGroupShapes.tla",
@@ -77,7 +89,8 @@ def run(chk, replay=None):
                 "[quick: every third one plus all |D| <= 200], seeded fundamental D per (bit size 12..128 x residue class mod 8 / 4D') "
                 "shape, the repository's test discriminants; with and without a 4-thread pool); one result event per returned "
                 "class group and one line event per (sampled) line of relations.sieve; non-trivial = a returned result with "
-                "h > 1 or a relation line; distinct by (op, D, threads, line number); runs without a result are recorded, not judged")
+                "h > 1 or a relation line; distinct by (op, D, threads, line number); runs without a result (None, internal panic) "
+                "are recorded and only their relation file is judged")
     chk.cov["shapes"] = nshapes
     chk.cov["ops"] = ops
     chk.cov["no_result"] = why
@@ -89,6 +102,7 @@ def run(chk, replay=None):
     chk.cov["two_rank_checked"] = sum(1 for e in evs if e["op"] == "result" and "facs" in e)
     chk.cov["lines_without_logged_sieve_value"] = nou
     chk.cov["lines_without_coordinates"] = noco
+    chk.cov["lines_of_runs_without_result"] = sum(1 for e in evs if e["op"] == "line" and not e.get("returned", True))
     chk.cov["lines_cross_checked_by_form_arithmetic"] = nxc
     if other_panics:
         chk.notes.append({"unjudged_runs_with_other_outcomes": other_panics[:20]})
